@@ -268,18 +268,42 @@ def creators_refuse_existing(prog, chk, rid):
     es, reach = eff.transitive([root])
     openers = {}
     # a function that demands the file it opens to exist is a loader (the class-hierarchy call graph reaches the
-    # loading constructor of engine_storage from create_database); creators are the openers that do not
+    # loading constructor of engine_storage from create_database); creators are the openers that do not.
+    # A helper that is handed the complete path of the file it opens (`open_pair(m_db_path, p_db_path)`, shared
+    # by the loader and the creator) decides nothing about the directory: the opener is then each caller that
+    # composes the path, judged with the argument in place of the parameter.
+    callers = {}
+    for k_, (g_, _, _) in reach.items():
+        if g_.body is None or g_.is_pattern:
+            continue
+        for ed in cg.edges(g_):
+            if ed.node.get('kind') not in ('CallExpr', 'CXXMemberCallExpr'):
+                continue
+            for t in ed.targets:
+                callers.setdefault(t.key, []).append((g_, ed.node))
+
+    def place(f, node, sp, depth=0):
+        if sp == (':memory:',):
+            return
+        if sp is not None and sp in _demanded_paths(prog, f, node):
+            return
+        if sp is not None and len(sp) == 1 and isinstance(sp[0], tuple) and depth < 4 and callers.get(f.key):
+            names = [p_.get('name') for p_ in f.params]
+            if sp[0][1] in names:
+                i = names.index(sp[0][1])
+                for g, c in callers[f.key]:
+                    args = children(c)[1:]
+                    place(g, c, c16._sym_path(prog, g, args[i]) if i < len(args) else None, depth + 1)
+                return
+        openers.setdefault(f.key, f)
     for e in es:
         if e.cls == 'attach' and e.site is not None and e.site.binds:
-            sp = c16._sym_path(prog, e.func, e.site.binds[0])
-            if sp is not None and sp in c16._existence_guards(prog, e.func, e.site.node):
-                continue
-            openers.setdefault(e.func.key, e.func)
+            place(e.func, e.site.node, c16._sym_path(prog, e.func, e.site.binds[0]))
     for f, node, arg in c16._open_sites(prog, cg, reach):
         sp = c16._sym_path(prog, f, arg)
-        if sp == (':memory:',) or (sp is not None and sp in c16._existence_guards(prog, f, node)):
+        if sp == (':memory:',):
             continue
-        openers.setdefault(f.key, f)
+        place(f, node, sp)
     if not openers:
         raise AnalysisBroken('X5: create_database reaches no function that opens a database file')
     for key, f in sorted(openers.items(), key=lambda kv: kv[1].qualname):
@@ -340,6 +364,46 @@ def creators_refuse_existing(prog, chk, rid):
                           'load_database rejects a directory with both layouts - the library just created is not '
                           'recognised on load' % (short, ' / '.join(c16._show_path(x) for x in missing),
                                                   ', '.join(c16._show_path(x) for x in sorted(refused, key=str)) or 'nothing'))
+
+
+def _demanded_paths(prog, func, before_node):
+    """Symbolic paths the function demands to exist before before_node: `if (... !path_exists(P) ...) throw`
+    (c16), also when the condition is held in a named flag (`const bool both = exists(a) && exists(b);
+    if (!both) throw`: every conjunct under the negation is demanded)."""
+    from . import c16
+    out = list(c16._existence_guards(prog, func, before_node))
+    loc = program.single_assignment_locals(func.node)
+    for st in children(func.body):
+        if st.get('loc') and before_node.get('loc') and st['loc'][1] >= before_node['loc'][1]:
+            break
+        if st.get('kind') != 'IfStmt':
+            continue
+        c = children(st)
+        if not any(x.get('kind') == 'CXXThrowExpr' for x in walk(c[1])):
+            continue
+
+        def conj(n, neg, depth=0):
+            """existence tests that must all hold for the condition to be false"""
+            n = strip(n, explicit=True)
+            k = n.get('kind')
+            if k == 'UnaryOperator' and n.get('opcode') == '!':
+                return conj(children(n)[0], not neg, depth)
+            if k == 'BinaryOperator' and n.get('opcode') in ('&&', '||'):
+                # the condition throws when true; !(a && b) and (!a || !b) both demand a and b
+                if (n['opcode'] == '&&') == neg:
+                    return conj(children(n)[0], neg, depth) + conj(children(n)[1], neg, depth)
+                return []
+            if k == 'DeclRefExpr' and depth < 3:
+                d = loc.get((n.get('referencedDecl') or {}).get('id'))
+                if d is not None and 'bool' in (n.get('type') or ''):
+                    return conj(d, neg, depth + 1)
+                return []
+            if k == 'CallExpr' and neg and len(children(n)) > 1 and c16._is_existence_test(prog, func, n):
+                sp = c16._sym_path(prog, func, children(n)[1])
+                return [sp] if sp is not None else []
+            return []
+        out.extend(conj(c[0], False))
+    return out
 
 
 def _loc_of(cats, alias, key, short):
